@@ -70,7 +70,8 @@ def check_best(case):
     prob, alg = None, None
     try:
         with guard("personal-best"):
-            prob, alg = _alg(case["alg"], [[0.0, 1.0], [0.0, 1.0]])
+            m_obj = len(case["parts"][0]["cur"]) - 1
+            prob, alg = _alg(case["alg"], [[0.0, 1.0], [0.0, 1.0]], m=m_obj)   # single-objective fast paths included
             swarm = []
             for j, p in enumerate(case["parts"]):
                 ind = IndividualSwarm([0.1 * j, 0.2])
